@@ -54,12 +54,12 @@ CbEv(p, n, i, res) ==
   [e |-> "Cb", n |-> EvName(n), tx |-> i - 1, rp |-> p.txs[i].rp, sp |-> p.txs[i].sp, len |-> IF IsEndName(n) THEN 0 ELSE 1,
    nul |-> IsEndName(n), ret |-> res, act |-> "none", c100 |-> p.txs[i].c100,
    mn |-> IF p.txs[i].m = "CONNECT" THEN 6 ELSE 2, st |-> 0, m |-> TRUE,
-   el |-> 0, ml |-> 0, dl |-> -1, tc |-> 0, ce |-> 0, wl |-> -1, xl |-> -1]
+   uri |-> <<>>, xid |-> <<>>, el |-> 0, ml |-> 0, dl |-> -1, tc |-> 0, ce |-> 0, wl |-> -1, xl |-> -1]
 TpEv(id, i) == [e |-> "TP", id |-> id, tx |-> i - 1]
 CallEv(d, k, n) == [e |-> "Call", d |-> d, k |-> k, len |-> n, off |-> 0]
 RetEv(p, d, rc, consumed) ==
   [e |-> "Ret", d |-> d, rc |-> rc, consumed |-> consumed, ist |-> p.in_status, ost |-> p.out_status, ntx |-> Len(p.txs),
-   onti |-> p.onti, in_tx |-> p.in_tx - 1, out_tx |-> p.out_tx - 1, ibuf |-> 0, ihdr |-> 0, obuf |-> 0, ohdr |-> 0, inc |-> 0, outc |-> 0]
+   onti |-> p.onti, in_tx |-> p.in_tx - 1, out_tx |-> p.out_tx - 1, ibuf |-> 0, ihdr |-> 0, obuf |-> 0, ohdr |-> 0, inc |-> 0, outc |-> 0, live |-> 0, liveb |-> 0]
 ObsInitM == [Ob!ObsInit EXCEPT !.counters_known = FALSE, !.cfg.autod = AutoDestroy, !.cfg.maxtx = 0]
 ObsCb(o, p, n, i) == Ob!ObsStep(o, CbEv(p, n, i, "OK"))
 ObsCbR(o, p, n, i, res) == Ob!ObsStep(o, CbEv(p, n, i, res))
